@@ -249,7 +249,17 @@ def check(chk):
     for fname in ('vints_pack', 'uvint_pack'):
         f = mar.func(fname)
         # marker: v |= (0xff >> n << n) with n = 8 - num_extra_bytes
-        aug = [st for st in body_walk(f) if isinstance(st, ast.AugAssign) and isinstance(st.op, ast.BitOr) and 'n' in [x.id for x in ast.walk(st.value) if isinstance(x, ast.Name)]]
+        # the marker expression (0xff >> n << n), wherever it is or-ed into the first byte: in `v |= ...`, in `v = v | ...`, through a temporary
+        class _M(object):
+            pass
+        cands = [x for x in ast.walk(f) if isinstance(x, ast.BinOp) and isinstance(x.op, ast.LShift) and isinstance(x.left, ast.BinOp) and isinstance(x.left.op, ast.RShift)
+                 and isinstance(x.left.left, ast.Constant) and x.left.left.value == 0xff]
+        ored = [x for x in ast.walk(f) if (isinstance(x, ast.AugAssign) and isinstance(x.op, ast.BitOr)) or (isinstance(x, ast.BinOp) and isinstance(x.op, ast.BitOr))]
+        aug = []
+        if len(set(src(c_) for c_ in cands)) == 1 and ored:
+            m_ = _M()
+            m_.value = cands[0]
+            aug = [m_]
         ndef = [st for st in body_walk(f) if isinstance(st, ast.Assign) and isinstance(st.targets[0], ast.Name) and st.targets[0].id == 'n']
         if len(aug) != 1 or len(ndef) != 1:
             raise AnalysisError('%s: first-byte marker not recognised' % fname)
